@@ -74,10 +74,6 @@ def main(argv=None) -> int:
             print(f"ANALYSIS-ERROR no check for {t}")
             return 2
         r = common.run_check(t, mod, a.tier, seed)
-        if a.tier == "thorough" and r == 0 and hasattr(mod, "SELFTEST") and a.target != "all":
-            from vlib import selftest
-
-            r = selftest.run_for_property(t)
         rc = max(rc, r)
     return rc
 
